@@ -118,6 +118,13 @@ class LoopFuseTrans(LoopTrans):
             raise TransformationError(
                 f"Error in {self.name} transformation. Nodes are not siblings "
                 f"who are next to each other.")
+        # The body of the second loop is appended to the body of the first
+        # one, so the first loop must precede the second one.
+        if node1.position > node2.position:
+            raise TransformationError(
+                f"Error in {self.name} transformation. Nodes are not siblings "
+                f"who are next to each other in the order given: the first "
+                f"loop must immediately precede the second loop.")
         # Check that the iteration space is the same
         if isinstance(node1, PSyLoop) and isinstance(node2, PSyLoop):
             # TODO 1731: For some PSyLoops the iteration space is encoded just
